@@ -45,6 +45,7 @@ const (
 	nfRangeIgnored = "net_range_ignored"     // 200 with the whole blob
 	nfUploadLost   = "net_upload_reply_lost" // the upload was committed but the reply is lost
 	nfUploadCut    = "net_upload_cut"        // the registry stops reading the upload body
+	nfUploadMoved  = "net_upload_redirected" // the registry answers the upload PUT with a redirect (nothing is stored)
 )
 
 // chunk plan kinds (chunksums/ endpoint)
@@ -62,7 +63,7 @@ const (
 
 var allPlanKinds = []string{planContiguous, planUnordered, planGapped, planOverlap, planDupGap, planPastEnd, planBadDigest, planCut, planCutClean}
 
-var allNetKinds = []string{nfConnReset, nfConnOther, nf5xx, nf5xxPlain, nf404, nfShort, nfReset, nfFlip, nfStall, nfRangeIgnored, nfUploadLost, nfUploadCut}
+var allNetKinds = []string{nfConnReset, nfConnOther, nf5xx, nf5xxPlain, nf404, nfShort, nfReset, nfFlip, nfStall, nfRangeIgnored, nfUploadLost, nfUploadCut, nfUploadMoved}
 
 type netPlan struct {
 	enabled map[string]bool
@@ -568,6 +569,14 @@ func (r *simReg) upload(req *http.Request, repo, rest string) (*http.Response, e
 		}
 		if resp, err, ok := r.headerFault(req, u.digest, nfConnReset, nf5xx); ok {
 			return resp, err
+		}
+		if r.plan.pick(nfUploadMoved) != "" {
+			// the body of an upload cannot be replayed, so net/http hands the 3xx answer back
+			// instead of following it: the layer has NOT been accepted
+			s := r.stat(u.digest)
+			s.faults = append(s.faults, nfUploadMoved)
+			code := []int{307, 308, 302}[verifsim.Draw("upload-moved", 3)]
+			return regResp(req, code, http.Header{"Location": {fmt.Sprintf("http://%s/elsewhere/%s", regHost, u.id)}}, nil, 0), nil
 		}
 		data, err := r.readUpload(req, u.digest)
 		if err != nil {
